@@ -388,6 +388,20 @@ def ch6_immutable_config(ctx, rep):
                             n += 1
                             rep.bad(R, "wrapper-field-reassigned:%s:%s" % (short(b.path), e.get("name")), ctx.where(b, i, si), "field %s of the channel wrapper is assigned after construction" % e.get("name"))
     rep.ok(R, "no-reassignment", "", "no assignment to a field of the channel wrappers outside their construction (%d found)" % n)
+    # sender wrappers are built by the channel constructor only (no second wrapper around the
+    # same crossbeam sender with another policy / other metrics)
+    fam = set(A.chan_ctor_family)
+    for b in ctx.prog.bodies:
+        if b.path in fam:
+            continue
+        for i in ctx.prog.cfg(b).nodes():
+            for si, s in enumerate(b.blocks[i]["stmts"]):
+                if s["k"] == "assign" and s["rv"]["k"] == "agg" and s["rv"].get("adt") == A.sender_adt["path"]:
+                    bpb = ctx.prog.bp(b)
+                    vals = {f: bpb.operand_term(o, i, si) for f, o in zip(s["rv"]["fields"], s["rv"]["ops"])}
+                    if (b.j.get("impl_trait") or "").endswith("Clone") and all(strip_clone(strip_wrap(v)) == ("field", ("param", 1), f) for f, v in vals.items()):
+                        continue  # Clone: a field-by-field copy of an existing wrapper
+                    rep.bad(R, "sender-wrapper-built-outside-constructor:%s" % short(b.path), ctx.where(b, i, si), "%s builds a sender wrapper of its own: the queue can then be fed under a policy / with metrics other than the ones it was created with" % short(b.path))
     # policy and metrics come from the constructor's parameters
     b = A.chan_ctor
     bp = ctx.prog.bp(b)
